@@ -160,8 +160,8 @@ def safe_tree(text):
 
 def feed(reader, text, path, eps=None, forms=FORMS, tree=None):
     """The written document through every entry form of a reader.  reader(src) -> observation (or raises).
-    Returns form -> {"ok", "obs" | "err", "route"}; route is what read_yaml did with the argument:
-    ParseText / OpenFile (open() was called on the string), ReadStream / AssertFails, UseTree."""
+    Returns form -> {"ok", "obs" | "err", "route"}; route is what read_yaml did with the argument: ParseText /
+    OpenFile, ReadStream / AssertFails (refused unread), UseTree; None when the outcome does not tell."""
     import builtins
     tree_py = to_py(tree) if tree is not None else safe_tree(text)[0]      # tree: what ruamel loaded from the text
     res = {}
@@ -201,7 +201,10 @@ def feed(reader, text, path, eps=None, forms=FORMS, tree=None):
             elif form == "file":
                 r["route"] = "OpenFile" if (opened or r["ok"] or r.get("oserror")) else None
             elif form == "stream":
-                touched = fh is not None and fh.tell() != 0
+                try:
+                    touched = fh is not None and fh.tell() != 0
+                except ValueError:          # closed by the reader: it was used
+                    touched = True
                 r["route"] = "ReadStream" if (touched or r["ok"]) else "AssertFails"
                 if fh is not None:
                     fh.close()
